@@ -22,6 +22,7 @@ claimed = {
  "C12": ("Formula layer of the four bancor functions executed symbolically with big.Float over exact reals and math.Pow as a constrained uninterpreted function: results non-negative, sale return <= reserve, zero in -> zero out, selling the whole supply returns the reserve, crr=100 branches equal the exact integer formulas, and the exponent passed to Pow is the bonding-curve exponent.", "§4 C12", "PARTIAL: the numerical accuracy of math/pow.go, exp.go, log.go and the 100-bit rounding (bounded relative error, monotonicity under rounding, buy-then-sell) is outside; it cannot be encoded within reach of the solvers."),
  "C13": ("Bounded symbolic execution of the real swapV2.go kernels from an arbitrary symbolic pool; assertions are SMT queries over unbounded integers.", "§4 C13", "Shape bound: one pool, one operation (inductive step)."),
  "C14": ("The real order-book code (PairV2.SellWithOrders, calculateBuyForSellWithOrders, updateOrders, removeLimitOrder, ExpireOrders) inside a full State over a concrete book of up to 3 resting orders and a symbolic taker amount: each order is filled at its own price or better for its owner up to one unit, a later order (worse price, or same price and higher id) is touched only after the earlier one is consumed, a partial fill keeps the price (0 <= s*B - b*S < B), no open order is left below the minimum volume, a closing remainder is refunded, and cancelling or expiring in the block of the fill returns exactly the unfilled amount, once.", "§4 C14", "PARTIAL: books of at most 3 concrete orders; paged on-disk index and multi-block interleavings outside; owner-only cancellation (transaction gate) not in this harness."),
+ "C15": ("Symbolic RunTx of SellCoin / BuyCoin / SellAllCoin (bancor coin <-> base) and SellSwapPool / BuySwapPool / SellAllSwapPool (token <-> base through one pool), gas coin = base or the traded coin: on acceptance the credit is at least the requested minimum, the debit at most the requested maximum, exactly the requested amount is sold / bought, a sell-all leaves nothing, and the tx.return / tx.sell_amount / tx.commission_amount tags equal the balance changes applied.", "§4 C15", "PARTIAL: two-coin routes only (3..5-coin routes outside the bound); BuySwapPool with concrete amounts to buy."),
  "C16": ("BeginBlock maturity loop from symbolic frozen funds (plain unbond, pending move, later heights, other candidate) with and without byzantine evidence: matured unbonds reach the owner's balance, moves reach the target candidate and never the balance, nothing at other heights is released.", "§4 C16", "Transaction-side period/target gates (Unbond, MoveStake, Lock, LockStake Run) are covered only as listed in evidence."),
  "C18": ("BeginBlock byzantine branch over symbolic stakes and unbonding funds: every stake and every fund in the unbond window loses v - floor(95v/100), the rest is frozen for one unbond period, the validator is dropped, total-slashed grows by the sum; other candidates' funds untouched.", "§4 C18", "Absence window / jail harnesses are covered only as listed in evidence."),
  "C19": ("EndBlock accumulation over every present/absent/missing status pattern and symbolic stakes, reward, fees: present validators accrue floor(pot*stake/total), others nothing, accrued + remainder = pot; payout block: paid never exceeds accrued.", "§4 C19", "Locked-stake (x3) bonus branch of PayRewardsV5Fix is outside the registered bound."),
@@ -40,7 +41,7 @@ not_applicable = {
  "C29": "state sync: every component on the path (zlib, protobuf, cosmos-sdk snapshot store, IAVL exporter/importer, a goroutine) would be a stub, leaving no repository logic under the solver (DESIGN.md §5)",
 }
 pending = {k: "not claimed yet in this revision: harnesses under construction (see DESIGN.md); no check is registered, so nothing is asserted about it" for k in
-           ["C15","C17"]}
+           ["C17"]}
 
 def main():
     checks = []
